@@ -338,6 +338,11 @@ def _q():
     )
 
 
+def _q_long():
+    """rare: one move of 1e4..2e5 maximum-size steps (drift of an accumulated time only shows on long moves)"""
+    return st.one_of(st.integers(10_000, 200_000).map(float), st.builds(lambda n: n + 0.5, st.integers(10_000, 100_000)))
+
+
 def signed_q():
     return st.builds(lambda q, neg: -q if neg else q, _q(), st.sampled_from([False, False, True]))
 
@@ -350,6 +355,13 @@ def histories(draw, table, *, max_ticks=5, max_readings=4):
                         st.floats(-1e4, 1e4, allow_nan=False, allow_subnormal=False)))
     held = t0
     ticks = []
+    if draw(st.integers(0, 39)) == 0:
+        # long-move class: a single tick far away (forwards or backwards), start time small so that |t| stays moderate
+        t0 = draw(st.sampled_from([0.0, 1.0, -5.0]))
+        q = draw(_q_long()) * (1 if draw(st.booleans()) else -1)
+        q = max(-2e4 / max_dt, min(2e4 / max_dt, q))  # keep |t| <= ~2e4 s
+        return {"I": I, "max_dt": max_dt, "cal": draw(st.booleans()), "ctl": draw(st.booleans()), "t0": t0,
+                "ticks": [{"out": t0 + q * max_dt, "readings": None}], "long": True}
     for _ in range(draw(st.integers(1, max_ticks))):
         readings = None
         kind = draw(st.sampled_from(["none", "none", "empty", "some", "some", "some"]))
